@@ -57,7 +57,7 @@ CFGS = {
                     LifeReqs='<- MCLifeAbsent0', MaxDepth='5'),
     "GEN_v6": dict(kind="gen", doc="IPv6 listener/client/peers and REQUESTED-ADDRESS-FAMILY",
                    Clients='{"c1", "c6"}', PeerIPs='{"A", "X", "Y"}', PeerPorts='{1}', ReqFams='{0, 4, 6, 9}',
-                   ChanNums='{16384}', MaxDepth='4'),
+                   ChanNums='{16384}', LifeReqs='<- MCLifeAbsent0', MaxDepth='4'),
     "GEN_v6strict": dict(kind="gen", doc="StrictAddressFamily: absent family means IPv4 even on an IPv6 listener",
                          Clients='{"c6"}', PeerIPs='{"A", "X"}', PeerPorts='{1}', ReqFams='{0, 6}', Strict='TRUE',
                          ChanNums='{16384}', MaxDepth='5'),
